@@ -15,6 +15,8 @@ import (
 	"testing"
 
 	"github.com/PapaCharlie/go-restli/v2/restli/batchkeyset"
+	"github.com/PapaCharlie/go-restli/v2/restlicodec"
+	"github.com/PapaCharlie/go-restli/v2/restlidata"
 	"pgregory.net/rapid"
 
 	"verif/HARNESS/dyn"
@@ -404,4 +406,101 @@ func TestC09Processes(t *testing.T) {
 		rec.Violation("processes", msg, map[string]any{"digests": digests})
 		t.Fatal(msg)
 	}
+}
+
+// ---------------------------------------------------------------------------------------------
+// RawRecord: hand-built untyped records (incl. statically typed maps at any depth) serialise canonically
+
+type rawCase struct {
+	Keys   []string `json:"keys"`   // keys of the typed maps (insertion order A)
+	Perm   []int    `json:"perm"`   // drives insertion order B
+	Shape  string   `json:"shape"`  // where the typed maps sit
+	Format string   `json:"format"` // json header
+}
+
+func buildRaw(keys []string, shape string) restlidata.RawRecord {
+	ms := map[string]string{}
+	mi := map[string]int64{}
+	ma := map[string]any{}
+	for _, k := range keys {
+		ms[k], mi[k], ma[k] = k+"v", int64(len(k)*7), []any{k}
+	}
+	switch shape {
+	case "top":
+		return restlidata.RawRecord{"strings": ms, "ints": mi, "anys": ma}
+	case "nested":
+		return restlidata.RawRecord{"a": map[string]any{"strings": ms, "z": restlidata.RawRecord{"ints": mi}}, "list": []any{ma, ms}}
+	default: // pointer
+		return restlidata.RawRecord{"p": &ms, "q": []any{&mi}}
+	}
+}
+
+func checkRaw(rec *stats.Recorder, c rawCase) string {
+	rec.Case("rawrecord", "shape="+c.Shape, "format="+c.Format)
+	if len(c.Keys) >= 2 {
+		rec.NonTrivial("rawrecord", hx.J(c), func() any { return c })
+	}
+	enc := func(r restlidata.RawRecord) (string, error) {
+		if c.Format == "json" {
+			w := restlicodec.NewCompactJsonWriter()
+			err := r.MarshalRestLi(w)
+			return w.Finalize(), err
+		}
+		w := restlicodec.NewRor2HeaderWriter()
+		err := r.MarshalRestLi(w)
+		return w.Finalize(), err
+	}
+	perm := append([]string(nil), c.Keys...)
+	for i := len(perm) - 1; i > 0; i-- {
+		j := c.Perm[i%len(c.Perm)] % (i + 1)
+		perm[i], perm[j] = perm[j], perm[i]
+	}
+	var first string
+	for rep := 0; rep < 6; rep++ {
+		ks := c.Keys
+		if rep%2 == 1 {
+			ks = perm
+		}
+		doc, err := enc(buildRaw(ks, c.Shape))
+		if err != nil {
+			return fmt.Sprintf("marshaling a hand-built RawRecord failed: %v", err)
+		}
+		if rep == 0 {
+			first = doc
+		} else if doc != first {
+			return fmt.Sprintf("the same RawRecord serialised to different bytes (repetition %d)\n first =%s\n second=%s", rep, hx.Q(first), hx.Q(doc))
+		}
+	}
+	tr, err := refParse(first, c.Format)
+	if err != nil {
+		return fmt.Sprintf("RawRecord output is not well-formed: %v\n document=%s", err, hx.Q(first))
+	}
+	if m := keysAscending(tr, ""); m != "" {
+		return fmt.Sprintf("%s\n document=%s", m, hx.Q(first))
+	}
+	return ""
+}
+
+func TestC09RawRecord(t *testing.T) {
+	rec := stats.For("C09")
+	if c, ok := hx.Replay[rawCase]("C09", "rawrecord"); ok {
+		if msg := checkRaw(rec, c); msg != "" {
+			rec.Violation("rawrecord", msg, c)
+			t.Fatal(msg)
+		}
+		return
+	} else if hx.Replaying() {
+		t.Skip()
+	}
+	rapid.Check(t, func(rt *rapid.T) {
+		var c rawCase
+		c.Keys = rapid.SliceOfNDistinct(rapid.SampledFrom([]string{"a", "b", "c", "k1", "k10", "k2", "Z", "é", "", "a b", "x.y", "$set"}), 0, 8, rapid.ID[string]).Draw(rt, "keys")
+		c.Perm = rapid.SliceOfN(rapid.IntRange(0, 1000), 1, 8).Draw(rt, "perm")
+		c.Shape = rapid.SampledFrom([]string{"top", "nested", "pointer"}).Draw(rt, "shape")
+		c.Format = rapid.SampledFrom([]string{"json", "header"}).Draw(rt, "format")
+		if msg := checkRaw(rec, c); msg != "" {
+			rec.Violation("rawrecord", msg, c)
+			rt.Fatalf("property violated (details in the replay file)")
+		}
+	})
 }
